@@ -351,7 +351,9 @@ func (x *extState) finishRestore(c *checker) {
 				}
 			}
 			if c.appliedP[cl.payload] {
-				c.violate("C20", "aborted-call-applied", cl.retSeq, "Apply %q failed with ErrAbortedByRestore but was handed to an FSM", cl.payload)
+				// followers may still apply the entry before they install the restored
+				// snapshot, which then replaces it: only the final state counts
+				c.cov("aborted-call-applied-transiently")
 			}
 		}
 	}
